@@ -3,6 +3,7 @@
 package req
 
 import (
+	"context"
 	"encoding/json"
 	"encoding/xml"
 	"errors"
@@ -48,22 +49,39 @@ var c18ErrRead = errors.New("c18 body read failure")
 
 // c18Sentinels are the errors scripted stages raise; compared by identity (errors.Is).
 var c18Sentinels = func() []error {
-	l := make([]error, 40)
+	l := make([]error, c18CtxCanceled+1)
 	for i := range l {
 		l[i] = fmt.Errorf("c18 stage error #%d", i)
 	}
+	// an error that wraps context.Canceled, as a transport interrupted by a cancelled context returns
+	// (the context of the request is NOT cancelled: do() looks at the error only)
+	l[c18CtxCanceled] = fmt.Errorf("c18 transport: %w", context.Canceled)
 	return l
 }()
+
+// c18CtxCanceled is the index of the sentinel that wraps context.Canceled (model: Err.ctxCanceled).
+const c18CtxCanceled = 100
+
+var c18ErrOutput = errors.New("c18 output write failure")
 
 // c18ErrName maps an error to the small enum shared with the model.
 func c18ErrName(err error) string {
 	if err == nil {
 		return "-"
 	}
+	if err == context.Canceled || err == context.DeadlineExceeded {
+		return "ctxdone" // r.Context().Err() itself, assigned by do()'s wait
+	}
 	for i, s := range c18Sentinels {
 		if errors.Is(err, s) {
+			if i == c18CtxCanceled {
+				return "ctxcanceled"
+			}
 			return "s" + strconv.Itoa(i)
 		}
+	}
+	if errors.Is(err, c18ErrOutput) {
+		return "output"
 	}
 	var u *c18UnmErr
 	if errors.As(err, &u) {
@@ -186,6 +204,19 @@ var c18Checkers = []c18Checker{
 		}
 		return ErrorState
 	}},
+	{"oor", func(r *Response) ResultState { // out-of-range values for some statuses
+		switch {
+		case r.StatusCode%5 == 0:
+			return ResultState(7)
+		case r.StatusCode%7 == 0:
+			return ResultState(-1)
+		case r.StatusCode >= 200 && r.StatusCode <= 299:
+			return SuccessState
+		case r.StatusCode >= 400:
+			return ErrorState
+		}
+		return UnknownState
+	}},
 }
 
 func c18StateName(s ResultState) string {
@@ -197,7 +228,9 @@ func c18StateName(s ResultState) string {
 	case UnknownState:
 		return "U"
 	}
-	return "?" + strconv.Itoa(int(s))
+	// a custom checker may return a value outside the three constants: the library treats it like
+	// UnknownState (neither predicate holds, no switch arm binds) — the lanes check exactly that
+	return "U"
 }
 
 func c18b(b bool) string {
@@ -330,12 +363,40 @@ func TestVerif_C18_bind(t *testing.T) {
 			script = 2
 		}
 
+		// response-body transformer (consulted by ToBytes when it really reads): "-" none installed,
+		// "k" accepts, "n<i>" fails with sentinel i returning nil, "b<i>" fails returning the body
+		xf := "-"
+		if r.Intn(4) == 0 {
+			switch x := r.Intn(10); {
+			case x < 4:
+				xf = "k"
+			case x < 7:
+				xf = "n" + strconv.Itoa(5+r.Intn(5))
+			default:
+				xf = "b" + strconv.Itoa(5+r.Intn(5))
+			}
+		}
 		c := C()
 		if ck.fn != nil {
 			c.SetResultStateCheckFunc(ck.fn)
 		}
 		if cE {
 			c.SetCommonErrorResult(&c18C{})
+		}
+		xfCalls := 0
+		if xf != "-" {
+			c.SetResponseBodyTransformer(func(raw []byte, _ *Request, _ *Response) ([]byte, error) {
+				xfCalls++
+				out := append([]byte{}, raw...)
+				if len(xf) < 2 {
+					return out, nil
+				}
+				i, _ := strconv.Atoi(xf[1:])
+				if xf[0] == 'n' {
+					return nil, c18Sentinels[i]
+				}
+				return out, c18Sentinels[i]
+			})
 		}
 		var codecLog []string
 		c.SetJsonUnmarshal(func(b []byte, v interface{}) error {
@@ -448,7 +509,8 @@ func TestVerif_C18_bind(t *testing.T) {
 		if useXML {
 			unmOK = xmlOK
 		}
-		content := hasHTTP && code != 204 && preErr == nil && (cached || readOK)
+		xfFails := len(xf) > 1
+		content := hasHTTP && code != 204 && preErr == nil && (cached || (readOK && !xfFails))
 		wantRes := sT && state == "S" && content && unmOK
 		wantErr := "-"
 		if state == "E" && content && unmOK {
@@ -461,7 +523,7 @@ func TestVerif_C18_bind(t *testing.T) {
 		ok := res == wantRes && errSlot == wantErr && !(res && errSlot != "-")
 		// an unmarshalling failure must surface
 		selected := hasHTTP && code != 204 && ((state == "S" && sT) || (state == "E" && (eT || cE)))
-		if selected && preErr == nil && (cached || readOK) && !unmOK && c18ErrName(err) != "unm" {
+		if selected && preErr == nil && (cached || (readOK && !xfFails)) && !unmOK && c18ErrName(err) != "unm" {
 			ok = false
 		}
 		if !selected && err != nil {
@@ -507,6 +569,9 @@ func TestVerif_C18_bind(t *testing.T) {
 			wantRet = c18ErrName(preErr)
 		case !(cached || readOK):
 			wantRet = "read"
+		case !cached && xfFails:
+			wantRet = "s" + xf[1:]
+			hist.Count("ret=transformer")
 		case !unmOK:
 			wantRet = "unm"
 		}
@@ -517,11 +582,23 @@ func TestVerif_C18_bind(t *testing.T) {
 		if hasHTTP && code == 204 {
 			hist.Count("204")
 		}
-		line := fmt.Sprintf("c18bind %s %d %s %s %s %s %s %s %s %s %s %s", c18b(hasHTTP), code, custom, c18b(sT), c18b(eT), c18b(cE),
-			c18ErrName(preErr), c18b(cached), c18b(readOK), verifh.Hex(ct), c18b(jsonOK), c18b(xmlOK))
+		// the transformer runs exactly when ToBytes really reads and the read succeeds
+		wantXfCalls := 0
+		if selected && preErr == nil && !cached && readOK && xf != "-" {
+			wantXfCalls = 1
+		}
+		if xfCalls != wantXfCalls {
+			ok = false
+		}
+		xfEnc := xf
+		if len(xf) > 1 {
+			xfEnc = xf[:1] + "s" + xf[1:]
+		}
+		line := fmt.Sprintf("c18bind %s %d %s %s %s %s %s %s %s %s %s %s %s", c18b(hasHTTP), code, custom, c18b(sT), c18b(eT), c18b(cE),
+			c18ErrName(preErr), c18b(cached), c18b(readOK), verifh.Hex(ct), c18b(jsonOK), c18b(xmlOK), xfEnc)
 		s.Case(line, impl, ok, "", selected,
-			fmt.Sprintf("status=%d checker=%s ct=%q body=%q targets(s=%v e=%v c=%v) preErr=%s cached=%v readOK=%v script=%d -> %s",
-				code, ck.name, ct, body, sT, eT, cE, c18ErrName(preErr), cached, readOK, script, impl))
+			fmt.Sprintf("status=%d checker=%s ct=%q body=%q targets(s=%v e=%v c=%v) preErr=%s cached=%v readOK=%v script=%d transformer=%s -> %s",
+				code, ck.name, ct, body, sT, eT, cE, c18ErrName(preErr), cached, readOK, script, xf, impl))
 	}
 	// content-type → unmarshaller choice, on its own, over a wider random alphabet
 	for k := 0; k < verifh.N(3000, 50000); k++ {
@@ -544,5 +621,5 @@ func TestVerif_C18_bind(t *testing.T) {
 		s.Case("c18ct "+verifh.Hex(ct), got, got == want, "", true, fmt.Sprintf("ct=%q -> %s", ct, got))
 	}
 	s.Finish()
-	hist.need(t, "bound=success", "bound=errorR", "bound=errorC", "ret=unm", "ret=read", "ret=s0", "204", "state=S", "state=E", "state=U", "ct=json", "ct=xml", "ct=other", "ct=none", "ctlane=xml", "ctlane=json")
+	hist.need(t, "bound=success", "bound=errorR", "bound=errorC", "ret=unm", "ret=read", "ret=s0", "ret=transformer", "204", "state=S", "state=E", "state=U", "ct=json", "ct=xml", "ct=other", "ct=none", "ctlane=xml", "ctlane=json")
 }
